@@ -360,9 +360,11 @@ def stats(cases, obs):
                 out, inv, expected, clean = f
                 c["cases_with_invocation"] += any(x not in ("0", "-") for x in inv.split(","))
                 c["output_differs_from_input"] += out.replace("-", "") != "".join(t.split(":")[1].replace("-", "") for t in tl)
-                c["clean"] += clean == "1"
+                c["clean"] += clean[0] == "1"
+                c["tidy"] += clean[1] == "1"
                 c["out_ne_documented"] += out != expected
-                c["clean_and_out_ne_documented"] += clean == "1" and out != expected
+                c["clean_and_out_ne_documented"] += clean[0] == "1" and out != expected
+                c["tidy_and_not_clean"] += clean[1] == "1" and clean[0] != "1"
             else:
                 c["obs_" + f[0]] += 1
             c["oracle_flagged"] += "||ORACLE" in o
